@@ -1,193 +1,496 @@
-"""Translate the two catalogue files and the idioms of InstanceCatalog.map_capacities_to_instance
-and ComponentCatalog.generate_component into Lean (Generated/Catalog.lean).
+"""Translate the two catalogues and the decision structure of InstanceCatalog.map_capacities_to_instance and
+ComponentCatalog.generate_component into Lean (Generated/Catalog.lean) by *running* the code, not by matching its text:
 
-Recognised (anything else is an ExtractionError):
-  map_capacities_to_instance:
-      candidates = list(filter(lambda x: (<conj of x.F ⋈ cap.F>), values)); candidates.sort();
-      if len(candidates) > 0: return keys[values.index(candidates[0])]
-      return keys[-1]
-  generate_component constants: ns suffix/type per component type, port kind per component type,
-      the name join characters, and that SharedNIC capacities omit bw.
+  fits            map_capacities_to_instance is executed symbolically (gen/symexec.py) on a two-entry probe catalogue
+                  [first = an entry whose fields are symbols, last = an entry that compares below everything] and a symbolic
+                  request; the paths that answer "first" are the filter predicate (a helper function, a comprehension, renamed
+                  locals or a reordered conjunction give the same formula)
+  structure       "candidates in catalogue order, head of the sort, first key with equal capacities, last key when nothing
+                  fits" is replayed concretely on every probe catalogue of <= 2 entries over {1,2}^3 and every chain of 3
+                  entries x every request in {0..3}^3 (where CPython's sort is determined by the order) against a mirror of
+                  the Lean `pick`; a difference is an ExtractionError
+  instanceCatalog the table the code *sees*: InstanceCatalog().list_instances() in its run-time order (checked against the file)
+  typeTable       generate_component is run on a synthetic entry of every ComponentType: service-name suffix, service type,
+                  port kind, whether a port gets the catalogued speed; name separators; how the unit count follows the bdf label
+  lookup          first entry in catalogue order whose type equals and whose Model or AlsoModels holds the model (probed on a
+                  synthetic catalogue with shadowing entries)
+  enumeration     populate_catalog_models_and_types on a synthetic catalogue (name massage + order)
+  freshObjects    two generations of the same component share no mutable object with each other or with the catalogue
 """
 import ast
+import itertools
 import json
 import os
 from .common import *
+from . import symexec as sx
+from .symexec import Sym
 
 REL_I = "fim/slivers/instance_catalog.py"
 REL_C = "fim/slivers/component_catalog.py"
+DIMS = ("core", "ram", "disk")
 
 
-def _filter_lambda(fn):
-    lam = None
-    for n in ast.walk(fn):
-        if isinstance(n, ast.Call) and getattr(n.func, "id", "") == "filter" and isinstance(n.args[0], ast.Lambda):
-            if lam is not None:
-                raise ExtractionError("map_capacities_to_instance: more than one filter")
-            lam = n
-    if lam is None:
-        raise ExtractionError("map_capacities_to_instance: filter(lambda ...) not found")
-    if getattr(lam.args[1], "id", "") != "values":
-        raise ExtractionError("filter does not run over `values`")
-    x = lam.args[0].args.args[0].arg
-    body = lam.args[0].body
+# ------------------------------------------------------------------------------------------------------------------
+# instance sizing
 
-    def term(n):
-        if isinstance(n, ast.Attribute) and isinstance(n.value, ast.Name) and n.attr in ("core", "ram", "disk"):
-            if n.value.id == x:
-                return "e." + n.attr
-            if n.value.id == "cap":
-                return "r." + n.attr
-        if isinstance(n, ast.Constant) and isinstance(n.value, int):
-            return "%d" % n.value
-        if isinstance(n, ast.BinOp) and isinstance(n.op, (ast.Add, ast.Mult)):
-            return "(%s %s %s)" % (term(n.left), "+" if isinstance(n.op, ast.Add) else "*", term(n.right))
-        raise ExtractionError("filter lambda: unrecognised term %s" % ast.dump(n)[:120])
-
-    def cond(n):
-        if isinstance(n, ast.BoolOp):
-            return "(" + (" && " if isinstance(n.op, ast.And) else " || ").join(cond(v) for v in n.values) + ")"
-        if isinstance(n, ast.Compare) and len(n.ops) == 1:
-            op = {ast.GtE: "≥", ast.Gt: ">", ast.LtE: "≤", ast.Lt: "<", ast.Eq: "=", ast.NotEq: "≠"}.get(type(n.ops[0]))
-            if op is None:
-                raise ExtractionError("filter lambda: comparison")
-            return "decide (%s %s %s)" % (term(n.left), op, term(n.comparators[0]))
-        raise ExtractionError("filter lambda: unrecognised condition %s" % ast.dump(n)[:120])
-    return cond(body)
+class _NegInf(int):
+    """compares below every number (the probe catalogue's last entry: never a candidate of a `>=` filter)"""
+    def __new__(cls):
+        return int.__new__(cls, -(10 ** 50))
+    __lt__ = __le__ = __ne__ = lambda s, o: True
+    __gt__ = __ge__ = __eq__ = lambda s, o: False
+    __hash__ = int.__hash__
 
 
-def _check_pick_shape(fn, src):
-    seg = ast.get_source_segment(src, fn)
-    body = strip_doc(fn.body)
-    stmts = [ast.unparse(s) for s in body]
-    want_tail = ["candidates.sort()", "if len(candidates) > 0:\n    return keys[values.index(candidates[0])]", "return keys[-1]"]
-    if stmts[-3:] != want_tail:
-        raise ExtractionError("map_capacities_to_instance: tail is not sort / index of head / last key: %r" % stmts[-3:])
-    pre = [s for s in stmts[:-4]]
-    ok_pre = {"assert cap is not None", "c = self.__read_catalog()", "keys = list(c.keys())", "values = list(c.values())"}
-    if set(pre) != ok_pre:
-        raise ExtractionError("map_capacities_to_instance: unexpected preamble %r" % pre)
-    if not stmts[-4].startswith("candidates = list(filter("):
-        raise ExtractionError("map_capacities_to_instance: candidates assignment")
+class _swap_instances:
+    """temporarily replace the class-level catalogue of InstanceCatalog by a probe catalogue"""
+
+    def __init__(self, ic_mod, cat):
+        self.K = ic_mod.InstanceCatalog
+        self.cat = cat
+
+    def __enter__(self):
+        from fim.slivers.capacities_labels import Capacities
+        self.K().list_instances()      # make sure it is loaded
+        slots = [n for n, v in vars(self.K).items() if isinstance(v, dict) and v and all(isinstance(x, Capacities) for x in v.values())]
+        if len(slots) != 1:
+            raise ExtractionError("InstanceCatalog: cannot find the class-level catalogue (candidates: %s)" % slots)
+        self.slot = slots[0]
+        self.saved = getattr(self.K, self.slot)
+        setattr(self.K, self.slot, self.cat)
+        return self
+
+    def __exit__(self, *a):
+        setattr(self.K, self.slot, self.saved)
 
 
-def _component_consts(tree, src):
-    """Constants of generate_component, read from the AST."""
-    cls = find_class(tree, "ComponentCatalog")
-    fn = find_func(cls, "generate_component")
-    text = ast.unparse(fn)
-    facts = {}
-    # ns suffix / type
-    m = None
-    for n in ast.walk(fn):
-        if isinstance(n, ast.If) and ast.unparse(n.body[0]).startswith("ns_suffix ="):
-            m = n
-    if m is None:
-        raise ExtractionError("generate_component: ns_suffix branch not found")
-    if ast.unparse(m.test) != "cs.get_type() in [ComponentType.FPGA]":
-        raise ExtractionError("generate_component: ns_suffix test changed: " + ast.unparse(m.test))
-    def const_assign(stmts, var):
-        for s in stmts:
-            if isinstance(s, ast.Assign) and getattr(s.targets[0], "id", "") == var:
-                return s.value
-        raise ExtractionError("generate_component: %s not assigned" % var)
-    facts["fpga_suffix"] = const_assign(m.body, "ns_suffix").value
-    facts["fpga_nstype"] = ast.unparse(const_assign(m.body, "ns_type")).split(".")[-1]
-    facts["other_suffix"] = const_assign(m.orelse, "ns_suffix").value
-    facts["other_nstype"] = ast.unparse(const_assign(m.orelse, "ns_type")).split(".")[-1]
-    # port kinds
-    kinds = None
-    for n in ast.walk(fn):
-        if isinstance(n, ast.If) and ast.unparse(n.test) == "cs.get_type() in [ComponentType.SmartNIC, ComponentType.FPGA]":
-            kinds = n
-    if kinds is None:
-        raise ExtractionError("generate_component: port-kind branch not found")
-    if ast.unparse(kinds.body[0]) != "isliver.set_type(InterfaceType.DedicatedPort)":
-        raise ExtractionError("generate_component: dedicated port branch changed")
-    el = kinds.orelse
-    if not (len(el) == 1 and isinstance(el[0], ast.If) and ast.unparse(el[0].test) == "cs.get_type() == ComponentType.SharedNIC"
-            and ast.unparse(el[0].body[0]) == "isliver.set_type(InterfaceType.SharedPort)" and not el[0].orelse):
-        raise ExtractionError("generate_component: shared port branch changed")
-    facts["dedicated_types"] = ["SmartNIC", "FPGA"]
-    facts["shared_types"] = ["SharedNIC"]
-    # names
-    if "isliver.set_name(name + '-' + interface_name)" not in text:
-        raise ExtractionError("generate_component: interface name join changed")
-    if "ns.set_name(parent_name + '-' + name + ns_suffix)" not in text or "ns.set_name(name + ns_suffix)" not in text:
-        raise ExtractionError("generate_component: service name join changed")
-    # capacities
-    capif = None
-    for n in ast.walk(fn):
-        if isinstance(n, ast.If) and ast.unparse(n.test) == "cs.get_type() == ComponentType.SharedNIC" and "cap = " in ast.unparse(n.body[0]):
-            capif = n
-    if capif is None or ast.unparse(capif.body[0]) != "cap = Capacities(unit=units)" \
-            or ast.unparse(capif.orelse[0]) != "cap = Capacities(unit=units, bw=int(interfaces_dict[interface_name]))":
-        raise ExtractionError("generate_component: capacities branch changed")
-    # units expression
-    units = None
-    for n in ast.walk(fn):
-        if isinstance(n, ast.Assign) and getattr(n.targets[0], "id", "") == "units":
-            units = ast.unparse(n.value)
-    facts["units_expr"] = units
-    known_units = {
-        "len(lab.bdf) if lab is not None and lab.bdf is not None else 1": "anyLen",
-        "len(lab.bdf) if lab is not None and isinstance(lab.bdf, list) else 1": "listLen",
-    }
-    if units not in known_units:
-        raise ExtractionError("generate_component: units expression not recognised: %r" % units)
-    facts["units_mode"] = known_units[units]
-    # lookup loop
-    if "if model == main_model and ctype_str == c['Type']:" not in text or \
-            "if model in also_model_list and ctype_str == c['Type']:" not in text:
-        raise ExtractionError("generate_component: lookup conditions changed")
-    # massage
-    mfn = None
-    for n in cls.body:
-        if isinstance(n, ast.FunctionDef) and n.name.endswith("massage_name"):
-            mfn = n
-    if mfn is None or "re.sub('[ -]', '_', name)" not in ast.unparse(mfn):
-        raise ExtractionError("__massage_name changed")
-    return facts
+def _sym_cap(C, side, fields):
+    c = C()
+    for f in fields:
+        c.__dict__[f] = Sym(("var", side, f))
+    return c
+
+
+def extract_fits(ic_mod, C):
+    fields = list(C().__dict__.keys())
+
+    def run():
+        E, L, R = _sym_cap(C, "e", fields), C(), _sym_cap(C, "r", fields)
+        for f in fields:
+            L.__dict__[f] = _NegInf()
+        with _swap_instances(ic_mod, {"first": E, "last": L}):
+            return ic_mod.InstanceCatalog().map_capacities_to_instance(cap=R)
+    paths = sx.explore(run, 512)
+    accept = []
+    for trace, res in paths:
+        if res[0] == "raise":
+            raise ExtractionError("map_capacities_to_instance raises %s on a probe request" % type(res[1]).__name__)
+        if res[1] == "first":
+            accept.append([sx.true_form(c, o) for c, o in trace])
+        elif res[1] != "last":
+            raise ExtractionError("map_capacities_to_instance answered %r on the probe catalogue" % (res[1],))
+    if not accept:
+        raise ExtractionError("map_capacities_to_instance: no request makes the probe entry a candidate")
+    if len(accept) == len(paths):
+        raise ExtractionError("map_capacities_to_instance: the probe entry is a candidate for every request (no filter?)")
+    for conj in accept:
+        for c in conj:
+            for side, f in sx.variables(c):
+                if f not in DIMS:
+                    raise ExtractionError("the candidate filter looks at field %s" % f)
+    return accept
+
+
+def _nat_term(e, var=None):
+    t = e[0]
+    if t == "var":
+        return "%s.%s" % (e[1], e[2])
+    if t == "const":
+        if e[1] < 0:
+            raise ExtractionError("negative constant in the candidate filter")
+        return "%d" % e[1]
+    if t in ("add", "mul"):
+        return "(%s %s %s)" % (_nat_term(e[1]), "+" if t == "add" else "*", _nat_term(e[2]))
+    raise ExtractionError("candidate filter: arithmetic %s is not translated" % t)
+
+
+def fits_lean(accept):
+    conjs = ["(" + " && ".join(sx.lean_cond(c, term=_nat_term) for c in conj) + ")" if conj else "true" for conj in accept]
+    return conjs[0] if len(conjs) == 1 else "(" + " || ".join(conjs) + ")"
+
+
+def fits_eval(accept, e, r):
+    env = {}
+    for i, d in enumerate(DIMS):
+        env[("e", d)] = e[i]
+        env[("r", d)] = r[i]
+    return any(all(sx.evaluate(c, env) for c in conj) for conj in accept)
+
+
+def model_pick(cat, req, accept):
+    """mirror of Model/Catalog.lean `pick`"""
+    cands = [s for _, s in cat if fits_eval(accept, s, req)]
+    if not cands:
+        return cat[-1][0]
+    h = cands[0]
+    for p in cands[1:]:
+        if all(x <= y for x, y in zip(p, h)):
+            h = p
+    for n, s in cat:
+        if s == h:
+            return n
+
+
+def _chain(ss):
+    def le(a, b):
+        return all(x <= y for x, y in zip(a, b))
+    return all(le(a, b) or le(b, a) for a, b in itertools.combinations(ss, 2))
+
+
+def probe_structure(ic_mod, C, accept):
+    pts = list(itertools.product((1, 2), repeat=3))
+    reqs = list(itertools.product(range(4), repeat=3))
+    cats = [[p] for p in pts] + [[p, q] for p in pts for q in pts]
+    cats += [list(t) for t in itertools.product(pts[::3] + [pts[-1]], repeat=3) if _chain(t)]
+    n = 0
+    ic = ic_mod.InstanceCatalog()
+    for sizes in cats:
+        cat = [("n%d" % i, s) for i, s in enumerate(sizes)]
+        with _swap_instances(ic_mod, {k: C(core=s[0], ram=s[1], disk=s[2]) for k, s in cat}):
+            for r in reqs:
+                try:
+                    got = ic.map_capacities_to_instance(cap=C(core=r[0], ram=r[1], disk=r[2]))
+                except Exception as e:
+                    raise ExtractionError("map_capacities_to_instance raises %s for %s on the probe catalogue %s" % (type(e).__name__, r, cat))
+                want = model_pick(cat, r, accept)
+                n += 1
+                if got != want:
+                    raise ExtractionError("map_capacities_to_instance is not filter / sort head / first equal key / last key: "
+                                          "catalogue %s request %s gives %s, the model gives %s" % (cat, r, got, want))
+    return n
+
+
+def _stateless(cls, fname, what):
+    """light AST check: the method (and the helpers it names, except the catalogue reader) keeps no state between calls"""
+    seen, todo = set(), [fname]
+    funcs = {n.name: n for n in cls.body if isinstance(n, (ast.FunctionDef, ast.AsyncFunctionDef))}
+    own = (cls.name, "self", "cls")
+    while todo:
+        f = todo.pop()
+        if f in seen or f not in funcs or "read_catalog" in f:
+            continue
+        seen.add(f)
+        for n in ast.walk(funcs[f]):
+            if isinstance(n, (ast.Global, ast.Nonlocal)):
+                raise ExtractionError("%s uses global state" % what)
+            tgt = None
+            if isinstance(n, ast.Attribute) and isinstance(n.ctx, (ast.Store, ast.Del)):
+                tgt = n
+            elif isinstance(n, ast.Subscript) and isinstance(n.ctx, (ast.Store, ast.Del)) and isinstance(n.value, ast.Attribute):
+                tgt = n.value
+            if tgt is not None and isinstance(tgt.value, ast.Name) and tgt.value.id in own:
+                raise ExtractionError("%s writes to %s.%s: its answers may depend on earlier calls" % (what, tgt.value.id, tgt.attr))
+            if isinstance(n, ast.Attribute) and isinstance(n.value, ast.Name) and n.value.id in own:
+                todo.append(n.attr)
+    return sorted(seen)
+
+
+def instance_table(ic_mod, C):
+    inst = ic_mod.InstanceCatalog().list_instances()
+    rows = []
+    fresh = C().__dict__
+    for name, cap in inst.items():
+        if not isinstance(name, str) or type(cap) is not C:
+            raise ExtractionError("list_instances: entry %r is not name -> Capacities" % (name,))
+        for f, v in cap.__dict__.items():
+            if f in DIMS:
+                if not (type(v) is int and v >= 0):
+                    raise ExtractionError("instance %s: %s is not a natural number" % (name, f))
+            elif v != fresh[f]:
+                raise ExtractionError("instance %s sets field %s (only core/ram/disk are modelled)" % (name, f))
+        rows.append((name, cap.core, cap.ram, cap.disk))
+    with open(os.path.join(REPO, "fim/slivers/data/instance_sizes.json")) as f:
+        filed = json.load(f, object_pairs_hook=list)
+    try:
+        want = {n: (dict(kv).get("core", 0), dict(kv).get("ram", 0), dict(kv).get("disk", 0)) for n, kv in filed}
+    except Exception:
+        raise ExtractionError("instance_sizes.json is not an object of objects")
+    if want != {r[0]: r[1:] for r in rows}:
+        raise ExtractionError("list_instances() does not hold the entries of instance_sizes.json")
+    order = "file" if [n for n, _ in filed if True] == [r[0] for r in rows] else "differs-from-file"
+    return rows, order
+
+
+# ------------------------------------------------------------------------------------------------------------------
+# components
+
+class _swap_components:
+    def __init__(self, cc_mod, entries):
+        self.K = cc_mod.ComponentCatalog
+        self.entries = entries
+
+    def __enter__(self):
+        try:
+            self.K().component_details(model="\0")
+        except Exception:
+            pass
+        slots = [n for n, v in vars(self.K).items() if isinstance(v, (list, tuple)) and v and all(isinstance(x, dict) and "Model" in x for x in v)]
+        if len(slots) != 1:
+            raise ExtractionError("ComponentCatalog: cannot find the class-level catalogue (candidates: %s)" % slots)
+        self.slot = slots[0]
+        self.saved = getattr(self.K, self.slot)
+        setattr(self.K, self.slot, type(self.saved)(self.entries))
+        return self
+
+    def __exit__(self, *a):
+        setattr(self.K, self.slot, self.saved)
+
+
+def _one_service(cs):
+    nsi = cs.network_service_info
+    if nsi is None:
+        return None, []
+    nss = list(nsi.network_services.values())
+    if len(nss) != 1:
+        raise ExtractionError("generate_component: %d network services" % len(nss))
+    return nss[0], list(nss[0].interface_info.interfaces.values())
+
+
+def probe_types(cc_mod):
+    from fim.slivers.attached_components import ComponentType
+    from fim.slivers.capacities_labels import Labels
+    K = cc_mod.ComponentCatalog
+    rows = []
+    seps = set()
+    units_modes = set()
+    ports = {"pa": "25", "pb": "100"}
+    bdf3 = ["0000:41:00.0", "0000:41:00.1", "0000:41:00.2"]
+    for t in ComponentType:
+        T = str(t)
+        ents = [{"Model": "with", "Type": T, "Details": "dw", "Interfaces": dict(ports)}, {"Model": "without", "Type": T, "Details": "do"}]
+        with _swap_components(cc_mod, ents):
+            try:
+                c0 = K().generate_component(name="nm", ctype=t, model="without")
+                c1 = K().generate_component(name="nm", ctype=t, model="with")
+                labs2 = [Labels(bdf=bdf3[0]), Labels(bdf=list(bdf3))]
+                labs3 = [Labels(bdf=bdf3[0]), Labels(bdf=list(bdf3))]
+                c2 = K().generate_component(name="nm", ctype=t, model="with", parent_name="pp", ns_node_id="sid",
+                                            interface_node_ids=["i0", "i1"], interface_labels=labs2)
+                c3 = K().generate_component(name="nm", ctype=t, model="with", interface_labels=labs3)
+            except Exception as e:
+                raise ExtractionError("generate_component raises %s: %s for a synthetic entry of type %s" % (type(e).__name__, e, T))
+        for c, m, d in ((c0, "without", "do"), (c1, "with", "dw"), (c2, "with", "dw")):
+            if c.get_model() != m or str(c.get_type()) != T or c.get_details() != d:
+                raise ExtractionError("generate_component: model/type/details of a synthetic %s entry are not the entry's" % T)
+        if c0.network_service_info is not None:
+            raise ExtractionError("generate_component: an entry without Interfaces gets a network service (%s)" % T)
+        ns1, if1 = _one_service(c1)
+        ns2, if2 = _one_service(c2)
+        if ns1 is None or ns2 is None or len(if1) != 2 or len(if2) != 2:
+            raise ExtractionError("generate_component: an entry with 2 Interfaces does not get one service with 2 interfaces (%s)" % T)
+        n1, n2 = ns1.get_name(), ns2.get_name()
+        if not n1.startswith("nm"):
+            raise ExtractionError("generate_component: service name %r does not start with the component name" % n1)
+        suffix = n1[2:]
+        if not (n2.startswith("pp") and n2.endswith("nm" + suffix)):
+            raise ExtractionError("generate_component: service name with parent is %r" % n2)
+        psep = n2[2:len(n2) - len("nm" + suffix)]
+        isep = set()
+        for ifs in (if1, if2):
+            for isl, p in zip(ifs, ports):
+                nm = isl.get_name()
+                if not (nm.startswith("nm") and nm.endswith(p)):
+                    raise ExtractionError("generate_component: interface name %r (port %s)" % (nm, p))
+                isep.add(nm[2:len(nm) - len(p)])
+        if len(isep) != 1:
+            raise ExtractionError("generate_component: interface names are joined inconsistently %s" % sorted(isep))
+        seps.add((psep, isep.pop()))
+        if str(ns1.get_type()) != str(ns2.get_type()) or ns2.node_id != "sid" or [i.node_id for i in if2] != ["i0", "i1"]:
+            raise ExtractionError("generate_component: service type / caller-supplied ids (%s)" % T)
+        kinds = {"" if i.get_type() is None else str(i.get_type()) for i in if1 + if2}
+        if len(kinds) != 1:
+            raise ExtractionError("generate_component: ports of one component type have kinds %s" % sorted(kinds))
+        bws = [i.get_capacities().bw for i in if1]
+        if bws == [25, 100] and [i.get_capacities().bw for i in if2] == bws:
+            speed = True
+        elif bws == [0, 0] and [i.get_capacities().bw for i in if2] == bws:
+            speed = False
+        else:
+            raise ExtractionError("generate_component: port speeds of a synthetic %s entry are %s" % (T, bws))
+        u1 = [i.get_capacities().unit for i in if1]
+        u2 = [i.get_capacities().unit for i in if2]
+        if u1 != [1, 1] or u2[1] != 3 or u2[0] not in (1, len(bdf3[0])):
+            raise ExtractionError("generate_component: unit counts %s %s" % (u1, u2))
+        units_modes.add("listLen" if u2[0] == 1 else "anyLen")
+        ns3, if3 = _one_service(c3)
+        for ifs, labs in ((if2, labs2), (if3, labs3)):
+            if len(ifs) != 2 or any(i.get_labels() is not l for i, l in zip(ifs, labs)) or [i.get_capacities().unit for i in ifs] != u2 \
+                    or [i.get_labels().local_name for i in ifs] != ["pa", ["pb"] * 3]:
+                raise ExtractionError("generate_component: caller-supplied labels do not land on their interfaces "
+                                      "(with%s ids, %s)" % ("" if ifs is if2 else "out", T))
+        rows.append((T, suffix, str(ns1.get_type()), kinds.pop(), speed))
+    if len(seps) != 1 or len(units_modes) != 1:
+        raise ExtractionError("generate_component: separators / unit rule differ between component types: %s %s" % (sorted(seps), sorted(units_modes)))
+    psep, isep = seps.pop()
+    return rows, psep, isep, units_modes.pop()
+
+
+def probe_lookup(cc_mod):
+    from fim.slivers.attached_components import ComponentType
+    K = cc_mod.ComponentCatalog
+    ents = [
+        {"Model": "xx", "AlsoModels": ["yy"], "Type": "GPU", "Details": "A"},
+        {"Model": "yy", "AlsoModels": ["xx", "zz"], "Type": "GPU", "Details": "B"},
+        {"Model": "xx", "Type": "NVME", "Details": "C"},
+        {"Model": "zz", "AlsoModels": None, "Type": "GPU", "Details": "D"},
+        {"Model": "ww", "AlsoModels": [], "Type": "NVME", "Details": "E"},
+    ]
+
+    def model(m, t):
+        for c in ents:
+            if (m == c["Model"] and t == c["Type"]) or (m in (c.get("AlsoModels") or []) and t == c["Type"]):
+                return c["Details"]
+        return None
+    n = 0
+    with _swap_components(cc_mod, ents):
+        for m in ("xx", "yy", "zz", "ww", "qq", ""):
+            for t in (ComponentType.GPU, ComponentType.NVME, ComponentType.Storage):
+                try:
+                    got = K().generate_component(name="nm", ctype=t, model=m).get_details()
+                except cc_mod.CatalogException:
+                    got = None
+                except Exception as e:
+                    raise ExtractionError("generate_component raises %s looking up %s/%s" % (type(e).__name__, t, m))
+                n += 1
+                if got != model(m, str(t)):
+                    raise ExtractionError("generate_component lookup is not `first entry of that type whose Model or AlsoModels "
+                                          "holds the model`: %s/%s gives %s, expected %s" % (t, m, got, model(m, str(t))))
+    return n
+
+
+def probe_enum(cc_mod):
+    ents = [{"Model": "a b-c.d_e", "Type": "T y-p", "Details": ""}, {"Model": "--x  ", "Type": "GPU", "Details": ""},
+            {"Model": "plain", "Type": "NVME", "Details": ""}, {"Model": "a+b/c", "Type": "S.t", "Details": ""}]
+    saved_enum, saved_map = cc_mod.ComponentModelType, dict(cc_mod.ComponentModelTypeMap)
+    try:
+        with _swap_components(cc_mod, ents):
+            cc_mod.ComponentCatalog().populate_catalog_models_and_types()
+            got = [m.name for m in cc_mod.ComponentModelType]
+            maps = [cc_mod.ComponentModelTypeMap.get(m) for m in cc_mod.ComponentModelType]
+    except Exception as e:
+        raise ExtractionError("populate_catalog_models_and_types raises %s: %s on a synthetic catalogue" % (type(e).__name__, e))
+    finally:
+        cc_mod.ComponentModelType = saved_enum
+        cc_mod.ComponentModelTypeMap.clear()
+        cc_mod.ComponentModelTypeMap.update(saved_map)
+
+    def massage(s):
+        return "".join("_" if ch in " -" else ch for ch in s)
+    want = [massage(c["Type"]) + "_" + massage(c["Model"]) for c in ents]
+    if got != want:
+        raise ExtractionError("enumeration names are not massage(Type)_massage(Model) in catalogue order: %s" % got)
+    if any(m is not e for m, e in zip(maps, ents)):
+        raise ExtractionError("enumeration members do not map to their own catalogue entries")
+    return len(ents)
+
+
+def _mutable_objects(root, skip_ids):
+    """ids of every mutable object reachable from root (instances, dicts, lists, sets), except enum members / classes / modules"""
+    import enum
+    import types
+    seen, out, todo = set(), {}, [root]
+    while todo:
+        o = todo.pop()
+        if id(o) in seen or id(o) in skip_ids:
+            continue
+        seen.add(id(o))
+        if o is None or isinstance(o, (str, bytes, int, float, bool, complex, enum.Enum, type, types.ModuleType, types.FunctionType,
+                                       types.BuiltinFunctionType, types.MethodType, frozenset)):
+            continue
+        if isinstance(o, tuple):
+            todo.extend(o)
+            continue
+        out[id(o)] = o
+        if isinstance(o, dict):
+            todo.extend(o.keys())
+            todo.extend(o.values())
+        elif isinstance(o, (list, set)):
+            todo.extend(o)
+        else:
+            d = getattr(o, "__dict__", None)
+            if isinstance(d, dict):
+                todo.extend(d.values())
+            for s in getattr(type(o), "__slots__", ()) or ():
+                if hasattr(o, s):
+                    todo.append(getattr(o, s))
+    return out
+
+
+def probe_fresh(cc_mod, comps):
+    """generate every catalogued component twice: no mutable object may be shared between two results or with the catalogue"""
+    from fim.slivers.attached_components import ComponentType
+    K = cc_mod.ComponentCatalog
+    catalog_objs = _mutable_objects(list(getattr(K, _swap_slot(cc_mod))), set())
+    shared = []
+    for c in comps:
+        try:
+            t = ComponentType[c["Type"]]
+        except KeyError:
+            raise ExtractionError("component_catalog.json: type %r is not a ComponentType" % c["Type"])
+        a = K().generate_component(name="nm", ctype=t, model=c["Model"])
+        b = K().generate_component(name="nm", ctype=t, model=c["Model"])
+        oa, ob = _mutable_objects(a, set()), _mutable_objects(b, set())
+        both = set(oa) & set(ob)
+        cat = (set(oa) | set(ob)) & set(catalog_objs)
+        if both or cat:
+            shared.append((c["Type"], c["Model"], sorted({type(oa[i]).__name__ for i in both} | {type(catalog_objs[i]).__name__ + "(catalogue)" for i in cat})))
+    return shared
+
+
+def _swap_slot(cc_mod):
+    with _swap_components(cc_mod, [{"Model": "x"}]) as s:
+        return s.slot
 
 
 def generate():
+    import fim.slivers.instance_catalog as ic_mod
+    import fim.slivers.component_catalog as cc_mod
+    from fim.slivers.capacities_labels import Capacities as C
+    from fim.slivers.attached_components import ComponentType
     tree, src = parse(REL_I)
     cls = find_class(tree, "InstanceCatalog")
     fn = find_func(cls, "map_capacities_to_instance")
-    _check_pick_shape(fn, src)
-    fits = _filter_lambda(fn)
-    with open(os.path.join(REPO, "fim/slivers/data/instance_sizes.json")) as f:
-        cat = json.load(f, object_pairs_hook=list)
-    rows = []
-    for name, kv in cat:
-        d = dict(kv)
-        if len(d) != len(kv):
-            raise ExtractionError("instance_sizes.json: duplicate field in %s" % name)
-        if not set(d) <= {"core", "ram", "disk"}:
-            raise ExtractionError("instance_sizes.json: entry %s sets fields other than core/ram/disk: %s" % (name, sorted(d)))
-        for v in d.values():
-            if not (isinstance(v, int) and not isinstance(v, bool) and v >= 0):
-                raise ExtractionError("instance_sizes.json: %s has a non-natural value" % name)
-        rows.append((name, d.get("core", 0), d.get("ram", 0), d.get("disk", 0)))
-    if len({r[0] for r in rows}) != len(rows):
-        # json.load into a dict keeps the LAST duplicate but the first position: not modelled
-        raise ExtractionError("instance_sizes.json: duplicate instance names")
+    helpers = _stateless(cls, "map_capacities_to_instance", "map_capacities_to_instance")
+    accept = extract_fits(ic_mod, C)
+    fits = fits_lean(accept)
+    nprobe = probe_structure(ic_mod, C, accept)
+    rows, order = instance_table(ic_mod, C)
 
     ctree, csrc = parse(REL_C)
-    facts = _component_consts(ctree, csrc)
+    find_func(find_class(ctree, "ComponentCatalog"), "generate_component")
+    trows, psep, isep, units_mode = probe_types(cc_mod)
+    nlookup = probe_lookup(cc_mod)
+    nenum = probe_enum(cc_mod)
     with open(os.path.join(REPO, "fim/slivers/data/component_catalog.json")) as f:
         comps = json.load(f)
+    seen_by_code = list(getattr(cc_mod.ComponentCatalog, _swap_slot(cc_mod)))
+    if seen_by_code != comps:
+        raise ExtractionError("the catalogue ComponentCatalog holds is not component_catalog.json")
+    tnames = [str(t) for t in ComponentType]
     crow = []
     for c in comps:
         extra = set(c) - {"Model", "AlsoModels", "Type", "Details", "Interfaces", "Capacity"}  # Capacity is not read by the code
         if extra:
             raise ExtractionError("component_catalog.json: unknown keys %s" % sorted(extra))
+        if c["Type"] not in tnames:
+            raise ExtractionError("component_catalog.json: type %r is not a ComponentType" % c["Type"])
         ifs = c.get("Interfaces")
         if ifs is not None:
             for k, v in ifs.items():
                 if not (isinstance(v, str) and v.isascii() and v.isdigit()):
                     raise ExtractionError("component_catalog.json: speed of %s/%s is not a decimal string" % (c["Model"], k))
         crow.append(c)
+    shared = probe_fresh(cc_mod, crow)
 
     body = "structure Size where\n  core : Nat\n  ram : Nat\n  disk : Nat\nderiving DecidableEq, Repr\n\n"
     body += "/-- the filter of map_capacities_to_instance: entry `e` is a candidate for request `r` -/\n"
@@ -206,12 +509,21 @@ def generate():
             lean_str(c["Details"]), "true" if ifs is not None else "false",
             lean_list(["(%s, %d)" % (lean_str(k), int(v)) for k, v in (ifs or {}).items()])))
     body += ",\n".join(ents) + "]\n\n"
-    body += "def fpgaSuffix : String := %s\ndef fpgaNsType : String := %s\n" % (lean_str(facts["fpga_suffix"]), lean_str(facts["fpga_nstype"]))
-    body += "def otherSuffix : String := %s\ndef otherNsType : String := %s\n" % (lean_str(facts["other_suffix"]), lean_str(facts["other_nstype"]))
-    body += "def dedicatedTypes : List String := %s\ndef sharedTypes : List String := %s\n" % (
-        lean_list([lean_str(x) for x in facts["dedicated_types"]]), lean_list([lean_str(x) for x in facts["shared_types"]]))
+    body += ("/-- what generate_component does for a component of each ComponentType (probed on a synthetic entry of every type):\n"
+             "suffix of the network-service name, service type, kind of the ports (\"\" = not set), whether a port gets the catalogued speed -/\n"
+             "structure TypeRow where\n  type : String\n  suffix : String\n  nsType : String\n  kind : String\n  speed : Bool\nderiving DecidableEq, Repr\n\n")
+    body += "def typeTable : List TypeRow := [\n" + ",\n".join(
+        "  { type := %s, suffix := %s, nsType := %s, kind := %s, speed := %s }" % (lean_str(t), lean_str(s), lean_str(n), lean_str(k), "true" if sp else "false")
+        for t, s, n, k, sp in trows) + "]\n\n"
+    body += "/-- `<parent><parentSep><name><suffix>` and `<name><ifaceSep><port>` -/\n"
+    body += "def parentSep : String := %s\ndef ifaceSep : String := %s\n" % (lean_str(psep), lean_str(isep))
     body += "/-- how `units` is computed from the bdf label: `true` = only a list has a length (a scalar gives 1) -/\n"
-    body += "def unitsOnlyFromList : Bool := %s\n" % ("true" if facts["units_mode"] == "listLen" else "false")
+    body += "def unitsOnlyFromList : Bool := %s\n" % ("true" if units_mode == "listLen" else "false")
+    body += ("/-- two generations of the same catalogued component share no mutable object with each other or with the catalogue "
+             "(probed for every entry) -/\ndef freshObjects : Bool := %s\n" % ("false" if shared else "true"))
     changed = emit("Catalog", body)
-    return {"instances": len(rows), "components": len(crow), "fits": fits, "facts": facts, "changed": changed,
-            "span": span_hash(src, fn)}
+    return {"instances": len(rows), "instance_order": order, "components": len(crow), "fits": fits, "type_table": trows,
+            "separators": [psep, isep], "units_mode": units_mode, "shared_objects": shared[:5],
+            "probes": {"sizing_structure": nprobe, "lookup": nlookup, "enum": nenum}, "stateless_helpers": helpers,
+            "technique": "symbolic execution of the filter + behavioural probes on synthetic catalogues",
+            "changed": changed, "span": span_hash(src, fn)}
